@@ -7,6 +7,7 @@ var Registry = map[string]func(*Ctx) int{
 	"C07": C07,
 	"C08": C08,
 	"C11": C11,
+	"C12": C12,
 	"C13": C13,
 	"C03": C03,
 	"C04": C04,
